@@ -35,17 +35,54 @@ func RegLan(src string) (string, error) {
 		// (?m)^ : start of text or just after a newline
 		parts = append(parts, `(re.opt (re.++ `+all+` (str.to_re "\u{a}")))`)
 	}
+	// a top-level \b / \B splits the subject: the language is the union over "left part ends in a word character"
+	// and "right part begins with one" of the products of the restricted halves (exact; nested boundaries are unsupported)
+	type seg struct {
+		parts []string
+		bnd   syntax.Op // boundary that FOLLOWS this segment (0 for the last)
+	}
+	segs := []seg{{parts: parts}}
 	for _, s := range subs[1 : len(subs)-1] {
+		if s.Op == syntax.OpWordBoundary || s.Op == syntax.OpNoWordBoundary {
+			segs[len(segs)-1].bnd = s.Op
+			segs = append(segs, seg{})
+			continue
+		}
 		t, err := regLan(s)
 		if err != nil {
 			return "", err
 		}
-		parts = append(parts, t)
+		segs[len(segs)-1].parts = append(segs[len(segs)-1].parts, t)
 	}
 	if last == syntax.OpEndLine {
-		parts = append(parts, `(re.opt (re.++ (str.to_re "\u{a}") `+all+`))`)
+		segs[len(segs)-1].parts = append(segs[len(segs)-1].parts, `(re.opt (re.++ (str.to_re "\u{a}") `+all+`))`)
 	}
-	return reConcat(parts), nil
+	word := `(re.union (re.range "0" "9") (re.range "A" "Z") (re.range "a" "z") (str.to_re "_"))`
+	nonword := `(re.diff (re.range "\u{0}" "\u{7f}") ` + word + `)`
+	endsW := `(re.++ ` + all + ` ` + word + `)`
+	endsN := `(re.union (str.to_re "") (re.++ ` + all + ` ` + nonword + `))`
+	beginsW := `(re.++ ` + word + ` ` + all + `)`
+	beginsN := `(re.union (str.to_re "") (re.++ ` + nonword + ` ` + all + `))`
+	// fold from the right: rest = language of everything after the boundary
+	rest := reConcat(segs[len(segs)-1].parts)
+	for i := len(segs) - 2; i >= 0; i-- {
+		left := reConcat(segs[i].parts)
+		if i > 0 {
+			// the character before this boundary may belong to an earlier segment when this one is empty: unsupported
+			if len(segs[i].parts) == 0 {
+				return "", fmt.Errorf("adjacent word boundaries unsupported in RegLan translation")
+			}
+			return "", fmt.Errorf("more than one top-level word boundary unsupported in RegLan translation")
+		}
+		lw, ln := `(re.inter `+left+` `+endsW+`)`, `(re.inter `+left+` `+endsN+`)`
+		rw, rn := `(re.inter `+rest+` `+beginsW+`)`, `(re.inter `+rest+` `+beginsN+`)`
+		if segs[i].bnd == syntax.OpWordBoundary {
+			rest = `(re.union (re.++ ` + lw + ` ` + rn + `) (re.++ ` + ln + ` ` + rw + `))`
+		} else {
+			rest = `(re.union (re.++ ` + lw + ` ` + rw + `) (re.++ ` + ln + ` ` + rn + `))`
+		}
+	}
+	return rest, nil
 }
 
 func reConcat(parts []string) string {
